@@ -97,7 +97,7 @@ def expand_images(io_path, wd, max_exh=10, nrandom=48, timeout=2400, stats=None)
                    invariants=["Emit"], post="Consumed")
     r = tlc("DiskTrace", cfg, files={"io.ndjson": io_path}, timeout=timeout)
     if r.error or r.violated:
-        raise Inconclusive("DiskTrace failed: %s %s\n%s" % (r.error, r.violated, r.out[-3000:]))
+        raise Inconclusive("DiskTrace failed: %s %s\n%s" % (r.error, r.violated, r.errctx or r.out[-3000:]))
     imgs = tlc_payloads(r, "IMG")
     by = {}
     for im in imgs:
